@@ -10,7 +10,9 @@ _lock = open("/tmp/eval_mutant.lock", "w")
 fcntl.flock(_lock, fcntl.LOCK_EX)  # one evaluation at a time: /repo and the build products are shared
 prop, n = sys.argv[1], sys.argv[2]
 checks = sys.argv[3:] or [prop]
-wt = "/tmp/wt/%s" % prop
+wtbase = os.environ.get("WT", "/tmp/wt")
+tag = os.environ.get("WTAG", "")   # e.g. "w2": second wave, kept as seeded/<prop>-w2-<n>
+wt = "%s/%s" % (wtbase, prop)
 mdir = os.path.join(wt, ".mutant")
 env = dict(os.environ, GOFLAGS="-mod=mod", GOPROXY="off", GOSUMDB="off", GOTOOLCHAIN="local")
 
@@ -28,6 +30,7 @@ def sh(cmd, cwd=None, timeout=1800):
 
 
 patch = os.path.join(mdir, "patch%s.diff" % n)
+rebased = os.path.join(mdir, "patch%s.rebased.diff" % n)  # hand-rebased on a later hook commit
 readme = open(os.path.join(mdir, "README%s.txt" % n)).read() if os.path.exists(os.path.join(mdir, "README%s.txt" % n)) else ""
 meta = {"property": prop, "mutant": n, "patch": open(patch).read()}
 # locate demo copy / run commands in the README
@@ -69,7 +72,11 @@ if not meta["existing_tests_pass"]:
 results = {}
 rc, o = sh("git -C /repo status --short | grep -v '^??' | head -3")
 assert o.strip() == "", "/repo is dirty: " + o
-rc, o = sh("git -C /repo apply %s" % patch)
+rc, o = sh("git -C /repo apply %s" % (rebased if os.path.exists(rebased) else patch))
+if rc != 0:
+    rc, o = sh("git -C /repo apply -3 %s && git -C /repo reset -q" % patch)
+    if rc != 0:
+        sh("git -C /repo reset -q --hard HEAD")
 if rc != 0:
     print("patch does not apply to /repo:", o); results["apply"] = o
 else:
@@ -94,9 +101,9 @@ else:
         sh("git -C /repo checkout -- .")
 meta["checks"] = results
 meta["readme"] = readme
-out = "/verif/seeded/%s-%s" % (prop, n)
+out = "/verif/seeded/%s-%s%s" % (prop, (tag + "-") if tag else "", n)
 os.makedirs(out, exist_ok=True)
-shutil.copy(patch, os.path.join(out, "patch.diff"))
+shutil.copy(rebased if os.path.exists(rebased) else patch, os.path.join(out, "patch.diff"))
 for a, b in demos:
     shutil.copy(os.path.join(mdir, a), os.path.join(out, a))
 m2 = dict(meta); m2.pop("patch")
